@@ -526,6 +526,112 @@ Proof.
 Qed.
 
 (* ------------------------------------------------------------------ *)
+(* further consequences                                                 *)
+(* ------------------------------------------------------------------ *)
+(* premises reduced to m0 > 0 and a positive first in-band frequency *)
+Lemma moments_pos_of_m0 : forall fmin fmax f e fa l,
+  StronglySorted Rlt f -> nonneg_spec e ->
+  map fst (band_pts fmin fmax f e) = fa :: l -> 0 < fa ->
+  0 < m0 fmin fmax f e ->
+  0 < m1 fmin fmax f e /\ 0 < m2 fmin fmax f e.
+Proof.
+  intros fmin fmax f e fa l Hs Hn Hb Hfa H0.
+  pose proof (cs_terms_nonneg fmin fmax f e Hs Hn) as Hw.
+  pose proof (band_sorted fmin fmax f e Hs) as Hbs. rewrite Hb in Hbs.
+  assert (Hrange : forall t, In t (cs_terms (band_pts fmin fmax f e)) -> fa <= snd t).
+  { intros t Ht. apply cs_terms_freq in Ht. rewrite Hb in Ht.
+    apply (sorted_bounds l fa (snd t) Hbs Ht). }
+  split.
+  - assert (L : fa * m0 fmin fmax f e <= m1 fmin fmax f e).
+    { rewrite m0_S0, m1_S1. apply S1_lower; assumption. }
+    assert (0 < fa * m0 fmin fmax f e) by (apply Rmult_lt_0_compat; assumption). lra.
+  - assert (L : fa * fa * m0 fmin fmax f e <= m2 fmin fmax f e).
+    { rewrite m0_S0, m2_S2. apply S2_lower; [assumption | lra | assumption]. }
+    assert (0 < fa * fa * m0 fmin fmax f e).
+    { apply Rmult_lt_0_compat; [apply Rmult_lt_0_compat|]; assumption. }
+    lra.
+Qed.
+
+Lemma periods_bounded_m0 : forall fmin fmax f e fa l,
+  StronglySorted Rlt f -> nonneg_spec e ->
+  map fst (band_pts fmin fmax f e) = fa :: l -> 0 < fa ->
+  0 < m0 fmin fmax f e ->
+  let fb := last (fa :: l) 0 in
+  exists t1 t2, tm01 fmin fmax f e = Some t1 /\ tm02 fmin fmax f e = Some t2 /\
+                1 / fb <= t2 /\ t2 <= t1 /\ t1 <= 1 / fa.
+Proof.
+  intros fmin fmax f e fa l Hs Hn Hb Hfa H0.
+  destruct (moments_pos_of_m0 fmin fmax f e fa l Hs Hn Hb Hfa H0) as [H1 H2].
+  apply periods_bounded; assumption.
+Qed.
+
+Lemma hm0_defined : forall fmin fmax f e,
+  StronglySorted Rlt f -> nonneg_spec e ->
+  hm0 fmin fmax f e = Some (4 * sqrt (m0 fmin fmax f e)).
+Proof.
+  intros fmin fmax f e Hs Hn. unfold hm0.
+  pose proof (m0_nonneg fmin fmax f e Hs Hn).
+  destruct (Rlt_dec (m0 fmin fmax f e) 0); [lra | reflexivity].
+Qed.
+
+(* endpoint-weight form with its sign *)
+Lemma moment_endpoint_weights : forall n fmin fmax f e,
+  let l := band_pts fmin fmax f e in
+  moment n fmin fmax f e
+  = sumR (map (fun wa => fst wa * (fill0 (snd (snd wa)) * fst (snd wa) ^ n))
+              (combine (weights (map fst l)) l))
+  /\ (StronglySorted Rlt f -> Forall (fun w => 0 <= w) (weights (map fst l))).
+Proof.
+  intros n fmin fmax f e l. split.
+  - unfold moment. rewrite trapz_weights. unfold wsum, weights. apply sumR_map_ext.
+    intros [w p] _. cbn [fst snd]. rewrite integrand_eq. reflexivity.
+  - intros Hs. apply weights_nonneg. apply band_sorted. assumption.
+Qed.
+
+Lemma dint_add : forall r r' d, same_mask r r' ->
+  dint (add_spec r r') d = dint r d + dint r' d.
+Proof.
+  intros r r' d H. revert d. unfold dint, add_spec.
+  induction H as [|a b r r' Hab Hr IH]; intros d; [cbn; lra|].
+  destruct d as [|x d]; [cbn; lra|].
+  cbn [combine map sumR fst snd]. rewrite IH.
+  destruct a as [va|], b as [vb|]; cbn; try lra.
+  - destruct Hab as [_ Hab]. discriminate (Hab eq_refl).
+  - destruct Hab as [Hab _]. discriminate (Hab eq_refl).
+Qed.
+
+Definition add_spec2d (E E' : list (list (option R))) : list (list (option R)) :=
+  map (fun p => add_spec (fst p) (snd p)) (combine E E').
+
+Lemma e2d_add : forall th E E', Forall2 same_mask E E' ->
+  e2d th (add_spec2d E E') = add_spec (e2d th E) (e2d th E').
+Proof.
+  intros th E E' H. unfold e2d, add_spec2d.
+  induction H as [|r r' E E' Hr H IH]; [reflexivity|].
+  cbn [combine map fst snd]. rewrite IH, dint_add by assumption.
+  reflexivity.
+Qed.
+
+Lemma e2d_same_mask : forall th E E', length E = length E' -> same_mask (e2d th E) (e2d th E').
+Proof.
+  intros th. unfold same_mask, e2d. induction E as [|r E IH]; intros [|r' E'] Hl; cbn in *; try lia; constructor.
+  - split; discriminate.
+  - apply IH. lia.
+Qed.
+
+Lemma Forall2_len : forall (A B : Type) (Rel : A -> B -> Prop) l l', Forall2 Rel l l' -> length l = length l'.
+Proof. induction 1; cbn; congruence. Qed.
+
+Lemma moment2d_add : forall n fmin fmax f th E E',
+  Forall2 same_mask E E' ->
+  moment2d n fmin fmax f th (add_spec2d E E')
+  = moment2d n fmin fmax f th E + moment2d n fmin fmax f th E'.
+Proof.
+  intros n fmin fmax f th E E' H. unfold moment2d. rewrite e2d_add by assumption.
+  apply moment_add. apply e2d_same_mask. apply (Forall2_len _ _ _ _ _ H).
+Qed.
+
+(* ------------------------------------------------------------------ *)
 (* a concrete instance meeting every premise (non-uniform grid from 0, one NaN bin) *)
 (* ------------------------------------------------------------------ *)
 Definition ex_f : list R := [0; 1 / 8; 1 / 4; 1 / 2; 1].
